@@ -18,6 +18,9 @@ typedef struct {
 	ZSTD_CStream *cstrm;
 	ZSTD_DStream *dstrm;
 	bool compress;
+
+	/* decompression only: inside a frame that is not complete yet */
+	bool mid_frame;
 } xfrm_zstd_t;
 
 static const ZSTD_EndDirective zstd_action[] = {
@@ -34,12 +37,16 @@ static int process_data(xfrm_stream_t *stream, const void *in,
 	xfrm_zstd_t *zstd = (xfrm_zstd_t *)stream;
 	ZSTD_outBuffer out_desc;
 	ZSTD_inBuffer in_desc;
+	bool frame_done = false;
 	size_t ret;
 
 	if (flush_mode < 0 || flush_mode >= XFRM_STREAM_FLUSH_COUNT)
 		flush_mode = XFRM_STREAM_FLUSH_NONE;
 
-	while (in_size > 0 && out_size > 0) {
+	while (out_size > 0 &&
+	       (in_size > 0 ||
+		(zstd->compress && flush_mode == XFRM_STREAM_FLUSH_FULL &&
+		 !frame_done))) {
 		memset(&in_desc, 0, sizeof(in_desc));
 		in_desc.src = in;
 		in_desc.size = in_size;
@@ -60,6 +67,12 @@ static int process_data(xfrm_stream_t *stream, const void *in,
 		if (ZSTD_isError(ret))
 			return XFRM_STREAM_ERROR;
 
+		/* 0 means the frame is completely written / decoded */
+		frame_done = (ret == 0);
+
+		if (!zstd->compress)
+			zstd->mid_frame = !frame_done;
+
 		in = (const char *)in + in_desc.pos;
 		in_size -= in_desc.pos;
 		*in_read += in_desc.pos;
@@ -69,8 +82,15 @@ static int process_data(xfrm_stream_t *stream, const void *in,
 		*out_written += out_desc.pos;
 	}
 
-	if (flush_mode != XFRM_STREAM_FLUSH_NONE) {
-		if (in_size == 0)
+	if (flush_mode != XFRM_STREAM_FLUSH_NONE && in_size == 0) {
+		if (zstd->compress) {
+			if (frame_done)
+				return XFRM_STREAM_END;
+			/* more to flush, but no space left */
+			return XFRM_STREAM_BUFFER_FULL;
+		}
+
+		if (!zstd->mid_frame)
 			return XFRM_STREAM_END;
 	}
 
